@@ -12,12 +12,26 @@ TRUST_CXX = (TRUST_PY + '; mock Dezyne runtime (mockrt/dzn) and mock of the dzn-
              'header (vf/cxx/model_header.py); g++ 12 / clang 14 and their sanitizers')
 
 CHECKS = {
+    'C03': dict(
+        technique='bounded-exhaustive enumeration (<= 3 ports per side, every selection) through construction -> match -> Builder.build, plus ' + PBT + 'a three-valued reference of the configuration semantics',
+        text='The finite domain named in the property (3 names per side, all wildcards and name sets incl. an unknown '
+             'name) is enumerated completely per side and pushed through the real builder; thorough enumerates the '
+             'product of both sides; beyond the bound Hypothesis samples generated models with up to 6 ports. Accessor '
+             'types are read back from the generated header.',
+        note=TRUST_PY, design='C03'),
     'C05': dict(
         technique=PBT + 'an independent reference model of the file contents (round trip model -> JSON -> parser -> view)',
         text='Generated-input search: random well-formed Dezyne JSON ASTs are parsed by the code under test and the '
              'complete parsed contents (every container, every field, order) are compared with a reference derived from '
              'the generating model; exploration, not proof - strength is the number and diversity of documents.',
         note=TRUST_PY, design='C05'),
+    'C13': dict(
+        technique='single-fault enumeration over Hypothesis-generated valid (model, configuration) pairs with a result-completeness / error-class oracle and a watchdog',
+        level='fault_enumeration',
+        text='For every generated valid pair the build must return the complete file set; then each of 27 fault kinds '
+             '(encapsulee, port type, formal type, selection, multi-client) is injected one at a time and the build must '
+             'fail with an exception class defined in the dznpy package; fault enumeration over sampled bases.',
+        note=TRUST_PY + '; SIGALRM watchdog of 30 s per build', design='C13'),
     'C14': dict(
         technique='bounded-exhaustive enumeration (3-identifier alphabet, depth 3) plus ' + PBT + 'a set-comprehension specification of lookup / resolution order / suffix search and an own identifier scanner',
         text='The finite sub-domain named in the property (alphabet of 3, depth 3, every name x scope x single/pair/full '
